@@ -533,7 +533,7 @@ def p08_importsText (safe : Bool) (imports : List String) : String :=
   else
     "\n" ++ joinWith "\n" (sortStrings (imports.map fun imp =>
       let parts := splitDot imp
-      let from_ := escapePath (convertName (joinWith "." (dropLast' parts)) safe)
+      let from_ := escapePath (convertPath (joinWith "." (dropLast' parts)) safe)
       let name := escapeKeyword (convertName (lastD "" parts) safe)
       "from " ++ from_ ++ " import " ++ name)) ++ "\n"
 
